@@ -409,3 +409,47 @@ func Seed(filter D) (D, error) {
 	}
 	return out, nil
 }
+
+// SetPath applies a $set of one dotted path (MongoDB semantics: missing
+// parents become embedded documents, numeric segments index existing arrays).
+func SetPath(doc D, path string, val any) (D, error) {
+	res, err := put(CloneD(doc), strings.Split(path, "."), Clone(val))
+	if err != nil {
+		return nil, err
+	}
+	return res.(D), nil
+}
+
+// UnsetPath applies a $unset of one dotted path.
+func UnsetPath(doc D, path string) D {
+	return unset(CloneD(doc), strings.Split(path, ".")).(D)
+}
+
+// Canon returns a copy with the keys of all (embedded) documents sorted:
+// equality "up to field order".
+func Canon(v any) any {
+	switch x := v.(type) {
+	case D:
+		out := make(D, len(x))
+		for i, e := range x {
+			out[i] = bson.E{Key: e.Key, Value: Canon(e.Value)}
+		}
+		sortD(out)
+		return out
+	case A:
+		out := make(A, len(x))
+		for i, e := range x {
+			out[i] = Canon(e)
+		}
+		return out
+	}
+	return v
+}
+
+func sortD(d D) {
+	for i := 1; i < len(d); i++ {
+		for j := i; j > 0 && d[j-1].Key > d[j].Key; j-- {
+			d[j-1], d[j] = d[j], d[j-1]
+		}
+	}
+}
